@@ -17,7 +17,11 @@ LINE_BREAKS = "\n\r\v\f\x1c\x1d\x1e\x85  "
 # them in because "verbatim" must mean verbatim.
 UNICODE_ODDITIES = ["e\u0301", "\u212b", "\u2126", "\u1100\u1161", "\ufb01", "\uff21\uff42", "\u200d",
                     "\u00ad", "\u0130", "\u00df", "\u01c5", "\U0001d11e", "\U0001f3b8", "\u0303x",
-                    "\u1e9e", "\u03a9\u0301"]
+                    "\u1e9e", "\u03a9\u0301",
+                    # text that LOOKS like a damaged or escaped encoding (candidates for a "helpful" repair):
+                    # UTF-8 read as cp1252, percent / quoted-printable / entity / backslash escapes
+                    "\u00c3\u00a9tude", "\u00c2\u00a92020", "don\u00e2\u20ac\u2122t", "\u00c3\u00bcber", "\u00c3\u00b1",
+                    "%C3%A9", "=C3=A9", "&#233;", "\\u00e9", "\\xe9", "\u00e9"]
 
 # Strings that mean something to OTHER layers (markup, format strings, escapes, regex, numbers): a payload
 # is carried verbatim, whatever it looks like.
